@@ -25,6 +25,7 @@ func WithImporter(importer importer.Importer) Option {
 // WithGlobals provides global variables with the given names.
 func WithGlobals(globals map[string]any) Option {
 	return func(vm *VirtualMachine) {
+		vm.globalsSupplied = true
 		for name, value := range globals {
 			vm.inputGlobals[name] = value
 			if vm.currentGlobals != nil {
